@@ -5,6 +5,8 @@ canonical observation that coq/Lib/DeferredKShow.v prints for the model.
 program = {"canc": [canceller, ...],            one per Deferred: ["none"] | ["nothing"] | ["cb", z] | ["eb", e] | ["raise", e]
            "ops":  [op, ...]}
 op      = ["add", d, cb, eb] | ["cb", d, z] | ["eb", d, e] | ["pause", d] | ["unpause", d] | ["cancel", d]
+          ["chain", d1, d2]   d1.chainDeferred(d2)          (evaluated on the re-entrant kernel: RChain)
+          ["dbg", 999, flag]  defer.setDebugging(flag)      (no Deferred involved; the models ignore it: a no-op)
           ["eb", d, e, form]: how the failure is handed to errback (same meaning, model ignores it):
           "exc" (default) errback(E()) | "failure" errback(Failure(E())) | "bare" argument-less errback() inside the
           except block of a raised E | "none" errback(None) inside such a block
@@ -246,6 +248,27 @@ class Runner:
         else:
             d.addCallbacks(defer.passthru)
 
+    def _chain(self, d1, d2):
+        """ds[d1].chainDeferred(ds[d2]) — the real method.  It adds (d2.callback, d2.errback) as a callback pair; so that
+        the moment d2 fires is observed like every other firing, the pair it picks up are instance-level wrappers of
+        d2's own methods (fresh ones per call, registered under this add-operation's number)."""
+        target = self.ds[d2]
+        k = self.nadd
+        self.nadd += 1
+        klass = type(target)
+
+        def callback(result):
+            return self._fire_wrap(lambda: klass.callback(target, result))
+
+        def errback(fail=None):
+            return self._fire_wrap(lambda: klass.errback(target, fail))
+
+        target.callback, target.errback = callback, errback
+        self.funcs[id(callback)] = k
+        self.funcs[id(errback)] = k
+        self.keep += [callback, errback]
+        self.ds[d1].chainDeferred(target)
+
     def _fire_wrap(self, fn):
         """run fn; put the token Fi of the Deferred it fired (if any) where the firing happened: at the position the
         events had when fn started, or right after the Ki of its own canceller.  Firings nested deeper (scripts of
@@ -298,6 +321,8 @@ class Runner:
             else:
                 if before[di]:
                     tail = "S"
+        elif kind == "chain":
+            self._chain(di, o[2])
         elif kind == "pause":
             d.pause()
         elif kind == "unpause":
@@ -322,7 +347,10 @@ class Runner:
         self.events = []
         before = [d.called for d in self.ds]
         kind, di = o[0], o[1]
-        if di >= len(self.ds):
+        if kind == "dbg":
+            defer.setDebugging(bool(o[2]))       # restored by run_program at the end of the case
+            return "-"
+        if di >= len(self.ds) or (kind == "chain" and o[2] >= len(self.ds)):
             return "-"
         d = self.ds[di]
         tail = None
@@ -424,6 +452,24 @@ def run_program(case) -> str:
         defer.setDebugging(old)
 
 
+def with_debug_flips(cases, rng, fraction):
+    """a sample of the cases once more with defer.setDebugging switched on (and sometimes off again) somewhere in
+    the middle: Deferreds created / fired while it was off meet operations made while it is on, and vice versa"""
+    out = []
+    for c in cases:
+        if len(c["ops"]) < 2 or rng.random() >= fraction:
+            continue
+        ops = list(c["ops"])
+        i = rng.randrange(1, len(ops) + 1)
+        ops.insert(i, ["dbg", 999, 1])
+        if rng.random() < 0.4 and i + 1 < len(ops):
+            ops.insert(rng.randrange(i + 1, len(ops) + 1), ["dbg", 999, 0])
+        if rng.random() < 0.3:
+            ops.insert(0, ["dbg", 999, rng.choice([0, 1])])
+        out.append({**c, "ops": ops})
+    return out
+
+
 def with_subclasses(cases, rng, fraction):
     """a sample of the cases once more with (some of) the Deferreds being instances of a trivial subclass"""
     return [{**c, "cls": rand_cls(rng, len(c["canc"]))} for c in cases if rng.random() < fraction]
@@ -471,11 +517,15 @@ def coq_op(o) -> str:
         return f"OCallback {o[1]}%nat ({o[2]})%Z"
     if k == "eb":
         return f"OErrback {o[1]}%nat ({o[2]})%Z"
+    if k == "dbg":
+        return "OPause 999%nat"                  # setDebugging: nothing for the model (no such Deferred: a no-op)
     return {"pause": "OPause", "unpause": "OUnpause", "cancel": "OCancel"}[k] + f" {o[1]}%nat"
 
 
 def has_scripts(case) -> bool:
-    return any(o[0] == "add" and any(b is not None and b[0] == "script" for b in o[2:4]) for o in case["ops"])
+    """needs the re-entrant kernel: a callback that runs kernel operations, or chainDeferred"""
+    return any(o[0] == "chain" or (o[0] == "add" and any(b is not None and b[0] == "script" for b in o[2:4]))
+               for o in case["ops"])
 
 
 def coq_sop(o) -> str:
@@ -505,6 +555,10 @@ def coq_rop(o) -> str:
         return f"ROCallback {o[1]}%nat ({o[2]})%Z"
     if k == "eb":
         return f"ROErrback {o[1]}%nat ({o[2]})%Z"
+    if k == "chain":
+        return f"ROAdd {o[1]}%nat (Some (RChain {o[2]}%nat)) (Some (RChain {o[2]}%nat))"
+    if k == "dbg":
+        return "ROPause 999%nat"                 # setDebugging: nothing for the model (no such Deferred: a no-op)
     return {"pause": "ROPause", "unpause": "ROUnpause", "cancel": "ROCancel"}[k] + f" {o[1]}%nat"
 
 
@@ -607,6 +661,8 @@ def rand_script_program(rng, nd, nops, cancellers=True, p_script=0.4, pauses=Tru
                 ops.append(["add", d, b, b])
             else:
                 ops.append(["add", d, mk(), mk()])
+        elif r < 0.55 and nd > 1:
+            ops.append(["chain", d, rng.choice([x for x in range(nd) if x != d])])
         elif r < 0.72:
             ops.append(["cb", d, rng.randrange(10)])
         elif r < 0.8:
@@ -725,7 +781,15 @@ class Reference:
                 continue
             _, k, cb, eb = item
             beh = eb if (isinstance(d.result, tuple) and d.result[0] == "F") else cb
-            if beh is not None:
+            if beh is not None and beh[0] == "chain":
+                # chainDeferred: hand the current result to the other Deferred (callback / errback), keep None
+                d.running = True
+                try:
+                    how = self.fire(beh[1], d.result)
+                finally:
+                    d.running = False
+                d.result = ("F", "A") if how == "already" else None
+            elif beh is not None:
                 arg = d.result
                 self.events.append(f"R{i}.{k}({ref_show(arg)})")
                 script, plain = (beh[1], beh[2]) if beh[0] == "script" else ([], beh)
@@ -848,7 +912,10 @@ class Reference:
         kind, i = o[0], o[1]
         if i >= len(self.ds):
             return "-"
-        if kind == "add":
+        if kind == "chain":
+            if o[2] < len(self.ds):
+                self.add(i, ["chain", o[2]], ["chain", o[2]])
+        elif kind == "add":
             self.add(i, o[2], o[3])
         elif kind in ("cb", "eb"):
             how = self.fire(i, o[2] if kind == "cb" else ("F", o[2]))
